@@ -203,7 +203,9 @@ Section WithDb.
 
   Lemma mdml_refines o x y : Rcore x y -> rel_opt (mdml d last o x) (sdml sd o y).
   Proof.
-    intros R. destruct o; simpl in *; try exact I.
+    intros R. unfold mdml, sdml. assert (Er : y_ro y = x_ro x) by apply R. rewrite Er.
+    destruct (x_ro x); [exact I|].
+    destruct o; simpl in *; try exact I.
     - apply Rcore_put_row; assumption.
     - pose proof (Rcore_put_row true t pk1 v1 x y R) as H1.
       destruct (m_put_row d last true t pk1 v1 x) as [x1|];
